@@ -1146,16 +1146,26 @@ package quic
 
 // handleOnePacket: every UDP datagram handed to the connection is credited to the anti-amplification budget exactly once,
 // with the size of the whole datagram, before any of its coalesced packets is looked at (C14: "three times the bytes
-// received") — not once per coalesced packet, and not only for the packets that later decrypt.
+// received") — not once per coalesced packet, and not only for the packets that later decrypt. It is called for freshly received datagrams only (opt calledfrom: a precondition on the calling context,
+// decided on the program text): packets taken out of the undecryptable-packet queue go through handleReceivedPacket,
+// which never credits. (Until the fix recorded in known_findings.json, Conn.run re-processed queued packets through
+// handleOnePacket and every queued packet was credited again.)
 //@ iface (h ackhandler.SentPacketHandler) ReceivedBytes
 //@   modifies nothing
 //@ func (c *Conn) handleOnePacket
 //@   props C14
 //@   requires c.sentPacketHandler != nil && c.config != nil && len(rp.data) <= 1099511627776 && rp.buffer != nil && 0 <= c.srcConnIDLen && c.srcConnIDLen <= 20
+//@   opt calledfrom (*Conn).handlePackets
 //@   ensures [whole-datagram-credited-exactly-once] called("(ackhandler.SentPacketHandler).ReceivedBytes") == 1 && callarg("(ackhandler.SentPacketHandler).ReceivedBytes", 0, 1) == old(len(rp.data))
+//@   ensures [credited-before-it-is-processed] called("(*Conn).handleReceivedPacket") == 1 && callindex("(ackhandler.SentPacketHandler).ReceivedBytes", 0) < callindex("(*Conn).handleReceivedPacket", 0)
 //@   modifies everything
-//@ loop (c *Conn) handleOnePacket #0
-//@   invariant [credited-before-the-loop-only] called("(ackhandler.SentPacketHandler).ReceivedBytes") == 1 && callarg("(ackhandler.SentPacketHandler).ReceivedBytes", 0, 1) == old(len(rp.data))
+//@ func (c *Conn) handleReceivedPacket
+//@   props C14
+//@   requires c.sentPacketHandler != nil && c.config != nil && len(rp.data) <= 1099511627776 && rp.buffer != nil && 0 <= c.srcConnIDLen && c.srcConnIDLen <= 20
+//@   ensures [processing-never-credits] called("(ackhandler.SentPacketHandler).ReceivedBytes") == 0
+//@   modifies everything
+//@ loop (c *Conn) handleReceivedPacket #0
+//@   invariant [processing-never-credits] called("(ackhandler.SentPacketHandler).ReceivedBytes") == 0
 //@   invariant [current-packet-is-never-empty] len(p.data) >= 1 || len(p.data) == len(data)
 //@   invariant [still-usable] p.buffer != nil && 0 <= c.srcConnIDLen && c.srcConnIDLen <= 20 && len(data) <= 1099511627776
 //@   modifies everything
@@ -1171,11 +1181,11 @@ package quic
 //@   trusted returns the buffer to a sync.Pool once unreferenced; nothing is assumed about it
 //@   modifies everything
 //@ func (c *Conn) handleLongHeaderPacket
-//@   trusted frame only (used by handleOnePacket): unpacks and processes one long header packet; assumed not to credit received bytes itself and to leave the connection ID length alone
+//@   trusted frame only (used by handleReceivedPacket): unpacks and processes one long header packet; assumed not to credit received bytes itself and to leave the connection ID length alone
 //@   ensures c.srcConnIDLen == old(c.srcConnIDLen)
 //@   modifies everything
 //@ func (c *Conn) handleShortHeaderPacket
-//@   trusted frame only (used by handleOnePacket): unpacks and processes one short header packet; assumed not to credit received bytes itself and to leave the connection ID length alone
+//@   trusted frame only (used by handleReceivedPacket): unpacks and processes one short header packet; assumed not to credit received bytes itself and to leave the connection ID length alone
 //@   ensures c.srcConnIDLen == old(c.srcConnIDLen)
 //@   modifies everything
 //@ func (p *receivedPacket) Size
